@@ -277,13 +277,17 @@ def one_scenario(run, seed, idx, mods, mode):
         # Use a ring with >= 8 members (non-collinear pairs exist for every grain), few grains, and ask for nearly all of a
         # grain's peaks so that no accidental orientation can qualify.
         dsu = np.unique(np.round(ds, 9))
-        cand = [d for d in dsu if int((np.abs(ds - d) < 1e-9).sum()) >= 8]
+        cand = [d for d in dsu if int((np.abs(ds - d) < 1e-9).sum()) >= 6]
         if cand:
+            # (rings of six, e.g. {100} of a primitive cubic cell, allow a single interplanar cosine: the leanest input the
+            # pair search can work from)
             d0 = cand[int(r.integers(0, min(3, len(cand))))]
+            if idx % 12 == 10:
+                d0 = min(cand, key=lambda d: (int((np.abs(ds - d) < 1e-9).sum()), d))    # the leanest ring ({100} for cubic P)
             sel = np.abs(ds - d0) < 1e-9
             hk, ds = hk[sel], ds[sel]
             nper = len(hk)
-            UBs = UBs[:min(len(UBs), 3)]
+            UBs = UBs[:min(len(UBs), 5)]
             ngr = len(UBs)
             minpks = nper - 2
             hkl_tol = float(r.choice([0.01, 0.02]))
